@@ -158,4 +158,49 @@ example : ∃ (p : Cog10.P) (r : ℝ), 0 < r ∧ p.geometry - 1 ≠ 0 ∧ p.Gamm
   simp only [cog10_alpha]
   norm_num
 
+/-! ### The returned fields (tree level)
+
+The path conditions only select which range warning is printed: on every path the returned
+fields are those of leaf 0. -/
+
+
+theorem cog10_tree (p : Cog10.P) (r t : ℝ) :
+    AgreeAt (Cog10.density p) (Cog10.L0.density p) r t
+      ∧ AgreeAt (Cog10.velocity p) (Cog10.L0.velocity p) r t
+      ∧ AgreeAt (Cog10.temperature p) (Cog10.L0.temperature p) r t := by
+  have e : ∀ x s, Cog10.density p x s = Cog10.L0.density p x s
+      ∧ Cog10.velocity p x s = Cog10.L0.velocity p x s
+      ∧ Cog10.temperature p x s = Cog10.L0.temperature p x s := by
+    intro x s
+    simp only [epv_tree]
+    split_ifs <;> exact ⟨rfl, rfl, rfl⟩
+  exact ⟨⟨fun x => (e x t).1, Filter.Eventually.of_forall fun s => (e r s).1⟩,
+    ⟨fun x => (e x t).2.1, Filter.Eventually.of_forall fun s => (e r s).2.1⟩,
+    ⟨fun x => (e x t).2.2, Filter.Eventually.of_forall fun s => (e r s).2.2⟩⟩
+
+/-- mass balance of the returned (tree-level) fields -/
+theorem cog10_mass_tree (p : Cog10.P) (r t : ℝ) (hr : 0 < r) :
+    massRes (Cog10.density p) (Cog10.velocity p) (p.geometry - 1) r t = 0 := by
+  obtain ⟨hρ', hu', hT'⟩ := cog10_tree p r t
+  rw [massRes_congr hρ' hu']
+  exact cog10_mass_L0 p r t hr
+
+/-- momentum balance of the returned (tree-level) fields -/
+theorem cog10_momentum_tree (p : Cog10.P) (r t : ℝ) (hr : 0 < r) (hρ : p.rho0 ≠ 0) :
+    momResT (Cog10.density p) (Cog10.velocity p) (Cog10.temperature p) p.Gamma r t = 0 := by
+  obtain ⟨hρ', hu', hT'⟩ := cog10_tree p r t
+  rw [momResT_congr hρ' hu' hT']
+  exact cog10_momentum_L0 p r t hr hρ
+
+/-- energy balance of the returned (tree-level) fields -/
+theorem cog10_energy_tree (p : Cog10.P) (r t : ℝ) (hr : 0 < r) (hk : p.geometry - 1 ≠ 0)
+    (hΓ : p.Gamma ≠ 0) (hg0 : p.gamma ≠ 0) (hγ : p.gamma - 1 ≠ 0) (hρ : 0 < p.rho0) (hT : 0 < p.temp0)
+    (hc : p.c_light = 29970000000) (ha : p.a_rad = 686 / 5) (hl : p.lam0_ = p.lambda0)
+    (hα : p.alpha_ = cog10_alpha p) (hβ : p.beta_ = p.beta) :
+    energyResT (Cog10.density p) (Cog10.velocity p) (Cog10.temperature p) p.Gamma p.gamma
+      (p.geometry - 1) p.c_light p.a_rad p.lam0_ p.alpha_ p.beta_ r t = 0 := by
+  obtain ⟨hρ', hu', hT'⟩ := cog10_tree p r t
+  rw [energyResT_congr hρ' hu' hT']
+  exact cog10_energy_L0 p r t hr hk hΓ hg0 hγ hρ hT hc ha hl hα hβ
+
 end EPV.C01
